@@ -618,7 +618,7 @@ BOUND = 'members <= 3 (sizes 2,3,1; thorough also 1,1,2 and 3,1,2), quilt axis l
 
 def _run(task, areas, name):
     tier = task.get('tier', 'quick')
-    rep = Report(name, task, rule=RULE, bound=BOUND)
+    rep = Report(name, task, rule=RULE + ' Added: one Batch member holds a 2-column 2-D block next to a 1-D block; mean / median / std / var / prod / all along both axes.', bound=BOUND)
     gens = []
     if 'q' in areas:
         gens.append(quilt_cases(tier))
